@@ -40,7 +40,8 @@ MiB = 1024 * 1024
 FINDING_OF = {"UncappedNonEmptyRepeat": "KF-C12-01", "ExtractAllIgnoresFilter": "KF-C12-02",
               "UnboundedVectorCount": "KF-C12-03", "UncappedSpaceCount": "KF-C12-04",
               "DenseGridFromSparseCells": "KF-C12-05", "XrefPrevLoop": "KF-C12-07",
-              "FromLineNestedQuantifier": "KF-C12-08", "PngScanRestartsInsideImage": "KF-C12-09"}
+              "FromLineNestedQuantifier": "KF-C12-08", "PngScanRestartsInsideImage": "KF-C12-09",
+              "CoderSizeFromOtherCoder": "KF-C12-10"}
 # (KF-C12-06, 7z LZMA2 output limit, and KF-C12-02, 7z extractall ignoring the member filter, were repaired:
 #  proposed_fixes/c12-7z-lzma2-output-limit.diff, c12-7z-extract-only-kept.diff; a finding that is not open absorbs nothing)
 # deviation -> the invariant its sensitivity run must violate
@@ -55,7 +56,8 @@ SENSITIVITY = {"UncappedNonEmptyRepeat": "Inv_Bounded", "ExtractAllIgnoresFilter
                "EmptyFileTakesSizeSlot": "Inv_SkippedNeverDecompressed", "ConfigureForgetsLimit": "Inv_ConfigMeaning",
                "ImageScanNoProgress": "Inv_Bounded", "FromLineNestedQuantifier": "Inv_Bounded",
                "PngScanRestartsInsideImage": "Inv_Bounded", "DibScanAdvancesByHeader": "Inv_Bounded",
-               "FromLineSecondStar": "Inv_Bounded"}
+               "FromLineSecondStar": "Inv_Bounded", "CoderSizeFromOtherCoder": "Inv_Bounded",
+               "DeclaredZeroMeansUnknown": "Inv_Bounded"}
 INVS = ["Inv_NoLoadBeforeGuard", "Inv_Boundary", "Inv_SkippedNeverDecompressed", "Inv_MemberBoundary", "Inv_ConfigMeaning",
         "Inv_Bounded", "Inv_EntitiesNotExpanded", "Inv_Progress"]
 MARKERS = {"laughs": ["hahaha"], "quadratic": ["qqqqqqqqqq"], "parameter": ["zzzzzzzzzz"], "external": []}
